@@ -470,7 +470,38 @@ def rloop_client_tasks_keep_polling(ctx):
 # counted on the pinned tree; each was read: they state invariants of the client's own tables that no server message can
 # falsify (R6/C05.R6 guard the ones that could), a poisoned-mutex expect, and the `expect`s of infallible serialisation
 _BG_SCOPE = r"^jsonrpsee_core::client::async_client::(read_task|send_task|handle_backend_messages|handle_frontend_messages|wait_for_shutdown|unparse_error|helpers::|manager::|utils::|ThreadSafeRequestManager::|ErrorFromBack::)|^<jsonrpsee_client_transport::ws::(Sender|Receiver)<T> as "
-_BG_PANICS = {"expect/unwrap": 6, "unreachable!/panic!": 4, "assert!": 0}
+_BG_PANICS = {"expect/unwrap": 6, "unreachable!/panic!": 4, "assert!": 0, "slice[index]": 0}
+
+
+def r12_each_client_has_its_own_disconnect_reason(ctx):
+    """the cause a client reports is the cause of *its* connection: the shared slot the background tasks write the reason
+    into is created when the client is built (`SharedDisconnectReason::default()` inside build_with_tokio / _wasm), not
+    carried in the (cloneable) builder - else every client built from clones of one builder reports whichever connection
+    failed last"""
+    F, R = ctx.F, ctx.R
+    tr = ctx.tracer(follow_callers=False, follow_fields=False)
+    n = 0
+    for c in F.all_calls(r"async_client::ErrorFromBack::new$"):
+        b = c.body
+        if b.crate != CORE or is_test_body(b) or len(c.args) < 2:
+            continue
+        n += 1
+        R.fn(b)
+        lv = tr.origins(b, c.args[1])
+        fresh = [l for l in lv if l.kind == "call" and re.search(r"Default>?::default$|Arc::<.*>::new$|Arc::<.*>::default$", l.detail["callee"] or "")]
+        foreign = [l for l in lv if l not in fresh]
+        R.check(bool(fresh) and not foreign, "C09.R12", "%s:reason-slot-is-fresh" % fkey(b), "the disconnect-reason slot is created with the client", "%s takes the disconnect-reason slot from %s instead of creating it: clients built from clones of one builder share it, and each reports the cause of whichever connection failed last" % (short(b.path), [flow.leaf_str(l)[:60] for l in foreign] or "nowhere traceable"), where(c))
+    R.floor("C09.R12", n, 1, "constructions of the client's error reader")
+
+
+class _Site:
+    """a bounds-checked index expression, presented like a call site"""
+    def __init__(self, body, line):
+        self.body = body
+        self.line = line
+
+    def loc(self):
+        return "%s:%d" % (self.body.file, self.line)
 
 
 def r11_background_tasks_gain_no_panic_sites(ctx):
@@ -487,6 +518,10 @@ def r11_background_tasks_gain_no_panic_sites(ctx):
         if not re.search(_BG_SCOPE, root.path):
             continue
         R.fn(b)
+        for bi_, blk_ in enumerate(b.blocks):
+            t_ = blk_["term"]
+            if t_ and t_["t"] == "assert" and t_.get("kind") == "BoundsCheck" and not blk_.get("cleanup") and bi_ in b.reachable:
+                got["slice[index]"].append(_Site(b, t_["sp"][0]))
         for c in b.calls:
             nm = c.name() or ""
             exp = c.exp or ""
@@ -505,7 +540,7 @@ def r11_background_tasks_gain_no_panic_sites(ctx):
     R.floor("C09.R11", sum(len(v) for v in got.values()), 8, "explicit panic sites inventoried")
 
 
-RULES = [r11_background_tasks_gain_no_panic_sites, r10_front_end_hand_over_reports_a_dead_back_end, rloop_client_tasks_keep_polling, rbuilder_client_settings_survive, rpure_refused_insert_changes_nothing, rsel_shutdown_is_a_select_branch, r9_taken_callers_are_answered, r1_cause_before_close, r2_no_unchecked_arith_on_peer_numbers, r3_errors_reach_watcher, r4_frontend_mapping, r5_read_error, r6_no_relock, r7_manager_not_cleared_wholesale, r8_no_panicky_text_surgery, rcancel_receive_is_cancel_safe]
+RULES = [r12_each_client_has_its_own_disconnect_reason, r11_background_tasks_gain_no_panic_sites, r10_front_end_hand_over_reports_a_dead_back_end, rloop_client_tasks_keep_polling, rbuilder_client_settings_survive, rpure_refused_insert_changes_nothing, rsel_shutdown_is_a_select_branch, r9_taken_callers_are_answered, r1_cause_before_close, r2_no_unchecked_arith_on_peer_numbers, r3_errors_reach_watcher, r4_frontend_mapping, r5_read_error, r6_no_relock, r7_manager_not_cleared_wholesale, r8_no_panicky_text_surgery, rcancel_receive_is_cancel_safe]
 
 LEVEL_TEXT = (
     "Structural necessary conditions of clean failure handling decided from the type-checked program: the happens-before "
